@@ -499,12 +499,13 @@ def parse_space_packets(
         # Put it all in one buffer
         concatenated_packets.extend(analysis_queue.popleft())
     current_idx = 0
-    if len(concatenated_packets) < 6:
-        return tm_list
     # Packet ID detected
     while True:
         # Can't even parse CCSDS header. Wait for more data to arrive.
-        if current_idx + CCSDS_HEADER_LEN >= len(concatenated_packets):
+        if current_idx + CCSDS_HEADER_LEN > len(concatenated_packets):
+            # Keep the remaining bytes, they might be the start of the next packet.
+            if current_idx < len(concatenated_packets):
+                analysis_queue.append(concatenated_packets[current_idx:])
             break
         current_packet_id = (
             struct.unpack("!H", concatenated_packets[current_idx : current_idx + 2])[0]
